@@ -2,7 +2,7 @@
 (***************************************************************************)
 (* What a deserialization TARGET is shown of a decoded value, per family   *)
 (* of serde hints (the typed half of C01 / C03):                           *)
-(*   "default", "alt"  - schema-directed targets (structs, enums for       *)
+(*   "default", "alt", "alt2"  - schema-directed targets (structs, enums for *)
 (*                unions, seqs / tuples, Option): they see the value with  *)
 (*                its union branches, enum indices, fixed / duration /     *)
 (*                decimal payloads - the abstract value itself;            *)
